@@ -69,6 +69,8 @@ def gen_case(cid, kinds, cfg, generic):
             attrs += ["#[is_variant(ignore)]"] + (["#[try_into(ignore)]"] if do_tryinto else []) + (["#[unwrap(ignore)]", "#[try_unwrap(ignore)]"] if do_unwrap else [])
         if vi in vrefs and do_unwrap:
             attrs += ["#[unwrap(ref)]", "#[try_unwrap(ref)]"]
+        if vi in vrefs and do_tryinto:
+            attrs += ["#[try_into(owned, ref)]"]   # accepted at variant level like the selections of Unwrap: it must then have that effect
         if vi in cfg.get("enable_attr", set()):
             attrs += ["#[is_variant]"] + (["#[try_into(owned)]"] if do_tryinto else []) + (["#[unwrap(owned)]", "#[try_unwrap(owned)]"] if do_unwrap else [])
         fs = []
@@ -189,7 +191,7 @@ def gen_case(cid, kinds, cfg, generic):
 
     targets = []
     for vi in range(n):
-        if vi in ign or not do_tryinto:
+        if vi in ign or not do_tryinto or vrefs:   # (with a variant-level selection the un-attributed variants are left undetermined by the docs)
             continue
         t = tuple(conv_tys(vi))
         if t not in targets:
@@ -223,6 +225,18 @@ def gen_case(cid, kinds, cfg, generic):
                     L.append('r.eq("TryFrom<&E> error carries the very input", <%s as ::core::convert::TryFrom<&%s>>::try_from(&v%d).err().map(|e| adr(e.input)), Some(adr(&v%d)));' % (rt, EE, i, i))
                 if sel_mut:
                     L.append('{ let mut w = v%d.clone(); let a = adr(&w); r.eq("TryFrom<&mut E> error carries the very input", <%s as ::core::convert::TryFrom<&mut %s>>::try_from(&mut w).err().map(|e| adr(&*e.input)), Some(a)); }' % (i, mt, EE))
+    # a variant-level `#[try_into(owned, ref)]`: the shared-reference conversion exists for that variant's field types and yields the fields themselves
+    if do_tryinto and vrefs:
+        for vi in sorted(vrefs):
+            named, tys = KINDS[kinds[vi]]
+            kept = [fi for fi in range(len(tys)) if fi not in fign.get(vi, ())]
+            if not kept:
+                continue
+            t = conv_tys(vi)
+            rt = tup(["&" + x for x in t])
+            binds = ["p%d" % f for f in range(len(kept))]
+            L.append('{ let %s = <%s as ::core::convert::TryFrom<&%s>>::try_from(&v%d).ok().unwrap(); r.eq("variant-level try_into(ref): TryFrom<&E> yields the fields themselves", vec![%s], vec![%s]); }' % (
+                tup(binds), rt, EE, vi, ", ".join("adr(%s)" % b for b in binds), ", ".join("fa%d[%d]" % (vi, fi) for fi in kept)))
     # ignored variants contribute no conversion
     for vi in (ign if do_tryinto else ()):
         t = tuple(conv_tys(vi))
